@@ -247,8 +247,10 @@ func (x *Exec) atReturn(s *State, vals []Value) {
 	}
 	x.anchor(s, "before return", end, 0)
 	c := x.contract
-	if c.Panics != nil {
-		g := asTerm(x.evalSpec(x.specEnvPre(s), c.Panics.E))
+	if c.Panics != nil && !c.PanicsOnly {
+		pe := x.specEnvAt(s, end, 0)
+		pe.postMode = true
+		g := asTerm(x.evalSpec(pe, c.Panics.E))
 		x.check(s, "panic", "panic/refused", Not(g), end, "normal return only when !("+c.Panics.Src+")")
 	}
 	for i, e := range c.Ensures {
